@@ -2445,43 +2445,44 @@ Proof.
 Qed.
 
 (** the stream commutes with any entry map that keeps user key, seqno and the tombstone
-    class -- as long as no weak tombstone is involved (the weak-tombstone rule looks at
-    [is_value] of the entry below, which resolution changes) *)
+    class (the weak-tombstone rule looks at [is_tombstone] of the entry below, which
+    resolution does not change: a weak tombstone cancels an inline and a separated value
+    alike) *)
 Lemma cstream_map (r : entry -> entry) W evict :
   (forall e, ukey (r e) = ukey e /\ seq (r e) = seq e /\ is_tomb (r e) = is_tomb e /\
              is_strong_tomb (r e) = is_strong_tomb e /\ is_weak_tomb (r e) = is_weak_tomb e) ->
-  forall l dr, (forall e, In e l -> is_weak_tomb e = false) ->
+  forall l dr,
   cstream W evict no_filter dr (map r l)
   = (map r (fst (cstream W evict no_filter dr l)), map r (snd (cstream W evict no_filter dr l))).
 Proof.
-  intros HR. induction l as [|e rest IH]; intros dr NW; [reflexivity|].
-  assert (forall x, In x rest -> is_weak_tomb x = false) as NW' by (intros x Hx; apply NW; now right).
+  intros HR. induction l as [|e rest IH]; intros dr; [reflexivity|].
   destruct (HR e) as (Ek & Es & Et & Est & Ew).
-  pose proof (NW e (or_introl eq_refl)) as We.
   cbn [map cstream].
   assert (draining evict dr (r e) = draining evict dr e) as ->.
   { unfold draining. now rewrite Ek, Ew. }
   destruct (draining evict dr e).
-  - rewrite (IH _ NW'). destruct (cstream W evict no_filter (after_drop dr) rest) as [o d]. reflexivity.
+  - rewrite IH. destruct (cstream W evict no_filter (after_drop dr) rest) as [o d]. reflexivity.
   - assert (apply_filter no_filter (r e) = (Some (r e), [])) as ->
       by (unfold apply_filter, no_filter; destruct (is_tomb (r e)); reflexivity).
     assert (apply_filter no_filter e = (Some e, [])) as ->
       by (unfold apply_filter, no_filter; destruct (is_tomb e); reflexivity).
     destruct rest as [|p rest'].
     + cbn [map]. rewrite Et. destruct (is_tomb e && evict); reflexivity.
-    + cbn [map]. destruct (HR p) as (Pk & Ps & _). rewrite Ek, Pk, Ps, Et, Est, Ew, We.
-      rewrite !andb_false_r.
+    + cbn [map]. destruct (HR p) as (Pk & Ps & Pt & _). rewrite Ek, Pk, Ps, Pt, Et, Est, Ew.
       change (r p :: map r rest') with (map r (p :: rest')).
       destruct (key_ltb (ukey e) (ukey p)).
-      * rewrite (IH _ NW'). destruct (cstream W evict no_filter NoDrain (p :: rest')) as [o d].
+      * rewrite IH. destruct (cstream W evict no_filter NoDrain (p :: rest')) as [o d].
         cbn [fst snd app]. destruct (is_tomb e && evict); reflexivity.
       * destruct (seq p <? W).
         -- destruct (is_strong_tomb e && evict).
-           ++ rewrite (IH _ NW'). destruct (cstream W evict no_filter (Drain (ukey e)) (p :: rest')) as [o d].
+           ++ rewrite IH. destruct (cstream W evict no_filter (Drain (ukey e)) (p :: rest')) as [o d].
               reflexivity.
-           ++ rewrite (IH _ NW'). destruct (cstream W evict no_filter (Drain (ukey e)) (p :: rest')) as [o d].
-              reflexivity.
-        -- rewrite (IH _ NW'). destruct (cstream W evict no_filter NoDrain (p :: rest')) as [o d].
+           ++ destruct (negb (is_tomb p) && is_weak_tomb e).
+              ** rewrite IH. destruct (cstream W evict no_filter DropNext (p :: rest')) as [o d].
+                 reflexivity.
+              ** rewrite IH. destruct (cstream W evict no_filter (Drain (ukey e)) (p :: rest')) as [o d].
+                 reflexivity.
+        -- rewrite IH. destruct (cstream W evict no_filter NoDrain (p :: rest')) as [o d].
            reflexivity.
 Qed.
 
@@ -2510,22 +2511,21 @@ Qed.
 
 (** a standard (pass-through) merge without filter: the new tables, read through their
     pointers in the new version, hold what the standard tree's merge of the resolved input
-    holds -- provided no weak tombstone takes part *)
+    holds (weak tombstones included: the pair rule treats separated values like inline ones) *)
 Theorem blob_merge_transparent d W evict tids split v :
   BInvG d v -> frames_pos (b_blobs v) -> split_ok split (b_tables v) -> tids_known tids v = true ->
-  (forall e, In e (merge_input tids v) -> is_weak_tomb e = false) ->
   let v' := blob_merge_standard W evict no_filter tids split v in
   exists newtabs, b_tables v' = newtabs ++ rest_tables tids (b_tables v) /\
     resolve_all v' (concat (map snd newtabs))
     = fst (run_stream W evict no_filter (resolve_all v (merge_input tids v))).
 Proof.
-  intros I POS SP KN NW v'.
+  intros I POS SP KN v'.
   pose proof (blob_merge_standard_blobs W evict no_filter tids split v KN) as EB. fold v' in EB.
   unfold v', blob_merge_standard in *. rewrite KN in *. cbn [negb] in *.
   destruct (run_stream W evict no_filter (merge_input tids v)) as [out log] eqn:HR.
   exists (split out). split; [reflexivity|]. rewrite (proj1 (SP out)).
   unfold run_stream, resolve_all in *.
-  rewrite (cstream_map (resolve_or_inline v) W evict (resolve_or_inline_class v) _ _ NW), HR.
+  rewrite (cstream_map (resolve_or_inline v) W evict (resolve_or_inline_class v) _ _), HR.
   cbn [fst snd]. apply map_ext_in. intros e He.
   pose proof (cstream_out_in _ _ _ _ _ HR e He) as Hl.
   destruct (merge_input_in _ _ _ Hl) as (t & Ht & Het).
@@ -2542,17 +2542,17 @@ Proof.
   apply (dead_no_ptr d v b p I POS Hb DD Hp). now symmetry.
 Qed.
 
-(** ... and FALSE with a weak tombstone directly above a separated value: the stream's
-    weak-tombstone rule tests [peeked.value_type == Value] (stream.rs), an indirection is
-    not a [Value], so the blob tree keeps the weak tombstone (and counts the blob as
-    garbage) where the standard tree drops the pair *)
+(** a weak tombstone directly above a separated value: since the repair of the weak-pair
+    rule ([!peeked.is_tombstone()], stream.rs) the blob tree drops the pair exactly like
+    the standard tree (with 3.1.9's [peeked.value_type == Value] it kept the weak
+    tombstone: the former [blob_transparent_refuted]) *)
 Definition wt1 := blob_flush 2 1000 0 0 (BlobEx.one 0) [BlobEx.V BlobEx.ka 1 [7;7;7]] bv_empty.
 Definition wt2 := blob_flush 2 1000 0 (snd wt1) (BlobEx.one 1) [BlobEx.Wt BlobEx.ka 2] (fst wt1).
-Theorem blob_transparent_refuted :
+Theorem blob_transparent_weak_ex :
   BInv (fst wt2) /\ frames_pos (b_blobs (fst wt2)) /\
   let v := fst wt2 in
   let v' := blob_merge_standard 10 false no_filter [0;1] (BlobEx.one 2) v in
-  resolve_all v' (concat (map snd (b_tables v'))) = [BlobEx.Wt BlobEx.ka 2] /\
+  resolve_all v' (concat (map snd (b_tables v'))) = [] /\
   fst (run_stream 10 false no_filter (resolve_all v (merge_input [0;1] v))) = [] /\
   BInv v'.
 Proof.
@@ -2650,13 +2650,12 @@ Qed.
 Theorem blob_merge_relocating_transparent d W evict tids rw target nid split v :
   BInvG d v -> frames_pos (b_blobs v) -> ids_below nid v -> split_ok split (b_tables v) ->
   reloc_ok tids rw v -> tids_known tids v = true ->
-  (forall e, In e (merge_input tids v) -> is_weak_tomb e = false) ->
   let v' := fst (blob_merge_relocating W evict no_filter tids rw target nid split v) in
   exists newtabs, b_tables v' = newtabs ++ rest_tables tids (b_tables v) /\
     resolve_all v' (concat (map snd newtabs))
     = fst (run_stream W evict no_filter (resolve_all v (merge_input tids v))).
 Proof.
-  intros I POS IB SP [RW1 RW2] KN NW v'. unfold v', blob_merge_relocating. rewrite KN. cbn [negb].
+  intros I POS IB SP [RW1 RW2] KN v'. unfold v', blob_merge_relocating. rewrite KN. cbn [negb].
   destruct (run_stream W evict no_filter (merge_input tids v)) as [out log] eqn:HR.
   destruct (relocate target (b_blobs v) rw (bw_new nid) out) as [out' w] eqn:HL.
   unfold bw_finish. cbn [fst snd]. exists (split out'). split; [reflexivity|].
@@ -2681,7 +2680,7 @@ Proof.
     - eapply dead_ids_below; eauto. }
   rewrite (relocate_transp pos_val target v rw nid v2 out (bw_new nid) [] out' w (WInv_new _ nid) RS FPb HL).
   - unfold run_stream, resolve_all in *.
-    rewrite (cstream_map (resolve_or_inline v) W evict (resolve_or_inline_class v) _ _ NW), HR.
+    rewrite (cstream_map (resolve_or_inline v) W evict (resolve_or_inline_class v) _ _), HR.
     reflexivity.
   - (* the new files are found in the new version *)
     intros f o x FF. unfold find_frame in *.
@@ -3036,4 +3035,4 @@ Print Assumptions reopen_ghost_refuted.
 Print Assumptions reloc_ineligible_refuted.
 Print Assumptions is_dead_zero_len_refuted.
 Print Assumptions relocate_scan_refuted.
-Print Assumptions blob_transparent_refuted.
+Print Assumptions blob_transparent_weak_ex.
